@@ -149,4 +149,12 @@ TEXT = {
         "note": COMMON_NOTE + "Handler parallelism and data races are outside the model.",
         "technique": "Coq proof (loop = filter-map over the read sequence, for all sequences) + synctest differential harness of both servers",
     },
+    "C13": {
+        "text": "The exchanges as functions of ANY per-phase datagram lists; theorems: REQUEST = hardware address, offered address as requested address, offering server's identifier, offer's id; "
+                "completion only by the first ACK/NAK that reached the call and bears the selected server's identifier (everything before it ignored); ACK -> lease of that offer and ACK, NAK -> "
+                "NAK error; renew/release field rules; DHCPv6 rapid-commit REPLY accepted directly, REQUEST carries advertised client id / server id / IA_NA. The composed model is compared "
+                "with both real clients against scripted servers (several servers, wrong-type/id/server/hardware-address, undecodable, duplicated replies).",
+        "note": COMMON_NOTE + "Which datagrams reach a call (first acceptable in arrival order) is C10/C11's model; timing is not part of this property.",
+        "technique": "Coq proof (selection over arbitrary reply lists, composed with the builder theorems) + synctest harness with scripted servers",
+    },
 }
